@@ -334,6 +334,17 @@ def build_stack(rng, counter):
             counter[0] += 1
             d[k] = counter[0]
         lines.append(f"d{i} = {d!r}")
+        # a supplied layer may be any Mapping, including ones that answer (or even insert) for absent keys on lookup:
+        # membership, not lookup, defines which keys a layer holds
+        if 0.45 <= r < 0.6:
+            import collections
+
+            if r < 0.53:
+                d = collections.defaultdict(int, d)
+                lines[-1] = f"d{i} = __import__('collections').defaultdict(int, {dict(d)!r})"
+            else:
+                d = collections.Counter(d)
+                lines[-1] = f"d{i} = __import__('collections').Counter({dict(d)!r})"
         supplied.append((d, dict(d), f"d{i}"))
         if r < 0.45:
             nm = next(names) if rng.random() < 0.8 else None
